@@ -167,4 +167,9 @@ theorem eraseIdx_append_mid (P Q : List Leg) (x : Leg) : (P ++ x :: Q).eraseIdx 
 theorem getElem?_append_mid (P Q : List Leg) (x : Leg) : (P ++ x :: Q)[P.length]? = some x := by
   simp
 
+theorem flatMap_single {α β : Type} (l : List α) (g : α → β) : l.flatMap (fun n => [g n]) = l.map g := by
+  induction l with
+  | nil => rfl
+  | cons a as ih => simp [List.flatMap_cons, ih]
+
 end Ptn.C04
